@@ -11,3 +11,61 @@ package aucoalesce
 //
 //@ table[C20] yaml-subset aucoalesce/normalizations.yaml record_types auparse.auditMessageNameToType
 //@ table[C20] yaml-subset aucoalesce/normalizations.yaml syscalls auparse.AuditSyscalls allow=*
+
+// ---------------------------------------------------------------------------
+// C15: coalescing leaves its inputs intact. Decided as frame obligations: every
+// write (store, map update, delete, append in place) made by the coalescing code
+// goes to an object allocated during the call (the event and what it owns). The
+// messages' parsed data is taken as already cached (the situation of a second
+// CoalesceMessages over the same messages, which is the property's concern), so
+// the maps returned by Data() are the messages' own, not fresh ones.
+//
+//@ spec msgOK(m *auparse.AuditMessage) bool := m != nil && -1 <= m.offset && m.offset <= len(m.RawData) && (m.data != nil || !isNil(m.error))
+//
+//@ func aucoalesce.newEvent
+//@ frame-fresh[C15]
+//@ requires (msg != nil || syscall != nil) && (msg != nil ==> msgOK(msg)) && (syscall != nil ==> msgOK(syscall))
+//@ modifies alloc, msg.data, msg.error, msg.tags, syscall.data, syscall.error, syscall.tags
+//@ ensures[C15] fresh(result0) && result0.Data != nil && fresh(result0.Data)
+//@ ensures[C15] (msg != nil ==> msgOK(msg)) && (syscall != nil ==> msgOK(syscall))
+//@ loop 0 invariant fresh(event) && event.Data != nil && fresh(event.Data) && (event.User.IDs == nil || fresh(event.User.IDs)) && (event.User.SELinux == nil || fresh(event.User.SELinux))
+//
+//@ func aucoalesce.addExecveRecord
+//@ frame-fresh[C15]
+//@ requires msgOK(execve) && event != nil && event.Data != nil
+//@ modifies event.*, elems(event.Warnings), mapOf(event.Data), alloc, execve.data, execve.error, execve.tags
+//@ ensures[C15] event.Data == old(event.Data)
+//@ ensures[C15] msgOK(execve)
+//@ loop 0 invariant event.Warnings == old(event.Warnings) && event.Data == old(event.Data) && (base(args) == 0 || fresh(args))
+//
+//@ func aucoalesce.addPathRecord
+//@ frame-fresh[C15]
+//@ requires msgOK(path) && event != nil && event.Data != nil
+//@ modifies event.*, elems(event.Warnings), elems(event.Paths), alloc, path.data, path.error, path.tags
+//@ ensures[C15] event.Data == old(event.Data)
+//@ ensures[C15] msgOK(path)
+//
+//@ func aucoalesce.addSockaddrRecord
+//@ frame-fresh[C15]
+//@ requires msgOK(sockaddr) && event != nil && event.Data != nil
+//@ modifies event.*, elems(event.Warnings), mapOf(event.Data), alloc, sockaddr.data, sockaddr.error, sockaddr.tags
+//@ ensures[C15] event.Data == old(event.Data)
+//@ ensures[C15] msgOK(sockaddr)
+//
+//@ func aucoalesce.addFieldsToEventData
+//@ frame-fresh[C15]
+//@ requires msgOK(msg) && event != nil && event.Data != nil
+//@ modifies event.*, elems(event.Warnings), mapOf(event.Data), alloc, msg.data, msg.error, msg.tags
+//@ ensures[C15] event.Data == old(event.Data)
+//@ ensures[C15] msgOK(msg)
+//@ loop 0 invariant event.Data == old(event.Data) && (base(event.Warnings) == old(base(event.Warnings)) || fresh(event.Warnings))
+//
+//@ func aucoalesce.normalizeCompound
+//@ frame-fresh[C15]
+//@ requires forall j int :: lo(msgs) <= j && j < hi(msgs) ==> msgOK(at(msgs, j))
+//@ modifies alloc, auparse.AuditMessage.data, auparse.AuditMessage.error, auparse.AuditMessage.tags
+//@ ensures[C15] isNil(result1) ==> fresh(result0)
+//@ loop 0 invariant forall j int :: lo(msgs) <= j && j < hi(msgs) ==> msgOK(at(msgs, j))
+//@ loop 0 invariant (special == nil || msgOK(special)) && syscall == nil
+//@ loop 1 invariant fresh(event) && event.Data != nil && fresh(event.Data)
+//@ loop 1 invariant forall j int :: lo(msgs) <= j && j < hi(msgs) ==> msgOK(at(msgs, j))
